@@ -204,8 +204,8 @@ class SubFile(object):
         start = self._offset + position
         end = start + length
         name = name or self.name
-        assert self._offset >= start >= self._end
-        assert self._offset >= end >= self._end
+        assert self._offset <= start <= self._end
+        assert self._offset <= end <= self._end
         return SubFile(self._file, self._offset + position, length, name=name)
 
     def read(self, size=None):
@@ -237,8 +237,8 @@ class SubFile(object):
             pos = where
         elif whence == 1:  # Relative
             pos = self._pos + where
-        elif whence == 2:  # From end
-            pos = self._length - where
+        elif whence == 2:  # From end (where is zero or negative, as for files)
+            pos = self._length + where
         else:
             raise ValueError
 
